@@ -20,8 +20,20 @@ def validate(module: str, cfg: str, traces: list, *, timeout=1800):
     record.dump_traces(path, traces)
     try:
         res = tlc.run(module, cfg, workers=1, env={"TRACE_FILE": path}, timeout=timeout, keep_dir=work)
-    finally:
-        pass
+    except tlc.TlcError as e:
+        # A recorded result so fragmented that evaluating it exhausts TLC's stack (thousands of byte runs where a handful are
+        # possible) cannot be a behaviour of the specification: find the trace(s) concerned, judge the others as usual.
+        tlc.cleanup(work)
+        if "StackOverflowError" not in str(e):
+            raise
+        if len(traces) == 1:
+            ls = re.findall(r"/\\ l = (\d+)", str(e))
+            return {traces[0]["tid"]: ("reject", int(ls[-1]) if ls else 1, "not-evaluable")}, tlc.TlcResult(ok=False, output=str(e)[-4000:])
+        verdicts, last = {}, None
+        for t in traces:
+            v, last = validate(module, cfg, [t], timeout=timeout)
+            verdicts.update(v)
+        return verdicts, last
     verdicts = {}
     for line in res.output.splitlines():
         m = _RE_ACC.search(line)
